@@ -16,14 +16,16 @@ use std::io::{BufRead, Write};
 #[derive(Serialize, Deserialize, Clone, Debug)]
 enum BT { Num(f64), Var(usize), Abs(Box<BT>), Min(Vec<BT>), Max(Vec<BT>), And(Vec<BT>), Or(Vec<BT>), Not(Box<BT>), Xor(Box<BT>, Box<BT>), Implies(Box<BT>, Box<BT>), Iff(Box<BT>, Box<BT>), Bin(u8, Box<BT>, Box<BT>), Neg(Box<BT>) }
 #[derive(Serialize, Deserialize, Clone, Debug)]
-struct Decl { name: String, kind: u8, lo: f64, hi: f64 }
+struct Decl { name: String, kind: u8, lo: Option<f64>, hi: Option<f64> }
+impl Decl { fn l(&self) -> f64 { self.lo.unwrap_or(f64::NEG_INFINITY) } fn h(&self) -> f64 { self.hi.unwrap_or(f64::INFINITY) } }
+fn fin(v: f64) -> Option<f64> { if v.is_finite() { Some(v) } else { None } }
 #[derive(Serialize, Deserialize, Clone, Debug)]
 struct Con { name: String, lhs: BT, cmp: u8, rhs: BT, assertion: bool }
 #[derive(Serialize, Deserialize, Clone, Debug)]
 struct Case { decls: Vec<Decl>, cons: Vec<Con>, dir: u8, obj: BT, order: u8, extra: Vec<BT> }
 
-fn vt(d: &Decl) -> VariableType { match d.kind { 0 => VariableType::Boolean, 1 => VariableType::IntegerRange(d.lo as i32, d.hi as i32), 2 => VariableType::NonNegativeReal(d.lo, d.hi), _ => VariableType::Real(d.lo, d.hi) } }
-fn decl_of(v: &VarDecl) -> Decl { match v.ty { VariableType::Boolean => Decl { name: v.name.clone(), kind: 0, lo: 0.0, hi: 1.0 }, VariableType::IntegerRange(l, h) => Decl { name: v.name.clone(), kind: 1, lo: l as f64, hi: h as f64 }, VariableType::NonNegativeReal(l, h) => Decl { name: v.name.clone(), kind: 2, lo: l, hi: h }, VariableType::Real(l, h) => Decl { name: v.name.clone(), kind: 3, lo: l, hi: h } } }
+fn vt(d: &Decl) -> VariableType { match d.kind { 0 => VariableType::Boolean, 1 => VariableType::IntegerRange(d.l() as i32, d.h() as i32), 2 => VariableType::NonNegativeReal(d.l(), d.h()), _ => VariableType::Real(d.l(), d.h()) } }
+fn decl_of(v: &VarDecl) -> Decl { match v.ty { VariableType::Boolean => Decl { name: v.name.clone(), kind: 0, lo: Some(0.0), hi: Some(1.0) }, VariableType::IntegerRange(l, h) => Decl { name: v.name.clone(), kind: 1, lo: Some(l as f64), hi: Some(h as f64) }, VariableType::NonNegativeReal(l, h) => Decl { name: v.name.clone(), kind: 2, lo: fin(l), hi: fin(h) }, VariableType::Real(l, h) => Decl { name: v.name.clone(), kind: 3, lo: fin(l), hi: fin(h) } } }
 fn binop(k: u8) -> BinOp { [BinOp::Add, BinOp::Sub, BinOp::Mul, BinOp::Div][k as usize] }
 fn cmp(k: u8) -> Comparison { [Comparison::LessOrEqual, Comparison::GreaterOrEqual, Comparison::Equal][k as usize] }
 fn cmp_code(c: &Comparison) -> u8 { match c { Comparison::LessOrEqual => 0, Comparison::GreaterOrEqual => 1, _ => 2 } }
@@ -169,7 +171,7 @@ fn main() {
                 // a trivially solvable carrier model with the same variables, solved by a solver that returns a fixed assignment
                 let mut carrier = ModelBuilder::new();
                 for d in &c.decls { carrier.add_var(d.name.clone(), VariableType::Real(f64::NEG_INFINITY, f64::INFINITY)); }
-                let pts: Vec<Vec<f64>> = (0..3).map(|_| c.decls.iter().map(|d| match d.kind { 0 => r.below(2) as f64, 1 => r.range(d.lo as i64, d.hi as i64) as f64, _ => *r.pick(&[0.0, 1.0, -1.0, 0.5, 2.0, -2.5, 3.0, 0.25]) }).collect()).collect();
+                let pts: Vec<Vec<f64>> = (0..3).map(|_| c.decls.iter().map(|d| match d.kind { 0 => r.below(2) as f64, 1 => r.range(d.l() as i64, d.h() as i64) as f64, _ => *r.pick(&[0.0, 1.0, -1.0, 0.5, 2.0, -2.5, 3.0, 0.25]) }).collect()).collect();
                 let sols: Vec<_> = pts.iter().map(|p| carrier.clone().satisfy().solve_with(Fixed { values: names.iter().cloned().zip(p.iter().cloned()).collect() })).collect();
                 for (bt, me) in exprs.iter() {
                     let be = to_builder(bt, &vars);
@@ -215,6 +217,7 @@ fn main() {
         }
         "worker" => {
             let start_i: usize = args[3].parse().unwrap();
+            let start_k: usize = args.get(4).and_then(|x| x.parse().ok()).unwrap_or(0);
             let file = std::io::BufReader::new(std::fs::File::open(&args[2]).unwrap());
             let out = std::io::stdout();
             for (i, line) in file.lines().enumerate() {
@@ -223,6 +226,7 @@ fn main() {
                 let c: Case = serde_json::from_value(v["case"].clone()).unwrap();
                 let text = v["text"].as_str().unwrap().to_string();
                 for k in 0..3 {
+                    if i == start_i && k < start_k { continue; }
                     { let mut o = out.lock(); writeln!(o, "S {} {}", i, k).unwrap(); o.flush().unwrap(); }
                     let res = std::panic::catch_unwind(|| match k {
                         0 => { let (mb, vars) = build(&c);
@@ -247,7 +251,10 @@ fn main() {
                             let runner = PipeRunner::new(vec![Box::new(CompilerPipe::new()), Box::new(PreModelPipe::new()), Box::new(ModelPipe::new()), Box::new(LinearModelPipe::new()), Box::new(AutoSolverPipe::new())]);
                             match runner.run(PipeableData::String(text.clone()), &ctx) {
                                 Ok(stages) => match stages.last() { Some(PipeableData::MILPSolution(sol)) => { let assign: IndexMap<String, f64> = sol.assignment().iter().map(|a| (a.name.clone(), a.value.into())).collect(); json!({"status":"ok","value":sol.value(),"assign":assign}) } _ => json!({"status":"other"}) },
-                                Err((e, _)) => { let m = format!("{}", e); json!({"status": if m.contains("nfeasible") { "solver-error" } else if m.contains("nbounded") { "solver-error" } else { "compile-error" }, "kind": if m.contains("nfeasible") { "Infeasible" } else if m.contains("nbounded") { "Unbounded" } else { "Other" }, "message": m.chars().take(200).collect::<String>()}) }
+                                Err((e, _)) => match e {
+                                    rooc::pipe::PipeError::SolverError(se) => json!({"status":"solver-error","kind": match se { rooc::SolverError::Infeasible => "Infeasible", rooc::SolverError::Unbounded => "Unbounded", _ => "Other" }}),
+                                    other => json!({"status":"compile-error","message":format!("{}", other).chars().take(200).collect::<String>()}),
+                                },
                             } }
                     }).unwrap_or_else(|_| json!({"status":"panic"}));
                     let mut o = out.lock(); writeln!(o, "R {} {} {}", i, k, res).unwrap(); o.flush().unwrap();
